@@ -652,8 +652,21 @@ func TestVerif_C19_BMP(t *testing.T) {
 			{Label: "secondary full<=3 cap==len", Entries: secondary, Alpha: c19lib.FullAlphabet(), MaxLen: 3},
 			{Label: "boundary<=4", Entries: entries, Alpha: c19lib.Boundary, MaxLen: 4},
 		}
-		plan.Opt = c19lib.MutOpt{AllByteValues: true, Pairs: true, PairStride: 3}
-		plan.TailFull, plan.TailBoundary = 2, 3
+		plan.Opt = c19lib.MutOpt{AllByteValues: true, Pairs: true, PairStride: 6}
+		plan.TailFull, plan.TailBoundary = 1, 2 // full-alphabet tails of length 2 are 8 M cases per seed: unaffordable
+		// fault pairs: only for the whole-message seed that is the last of its message type
+		lastOfKind := map[string]string{}
+		for _, c := range cons {
+			lastOfKind[c.kind] = "msg:" + c.name
+		}
+		keep := map[string]bool{}
+		for _, n := range lastOfKind {
+			keep[n] = true
+		}
+		for i := range plan.Seeds {
+			plan.Seeds[i].NoPairs = !keep[plan.Seeds[i].Name]
+		}
+		r.Bounds["mutation_pairs_seeds"] = len(keep)
 	}
 	plan.Run(r)
 	r.Sample(c19lib.Case{Entry: "bmp.ParseBMPMessage", Hex: c19lib.Hex(records[0]), Note: "seed " + seeds[0].Name})
